@@ -209,6 +209,50 @@ fn main() {
             let s = Sector::new(pos(rng), d, start.deg(), sweep.deg());
             check(ctx, "sector", &s, &|| format!("Sector {{ top_left: {:?}, diameter: {}, start: {} deg, sweep: {} deg }}", s.top_left, d, start, sweep), rng);
         });
+        // a few large shapes (sizes beyond 255), all six primitives
+        let nl = run.tier(96u64, 3000u64);
+        run.generate("large-shapes", nl, false, 0.3, |ctx, idx, rng| {
+            let big = |rng: &mut Rng| *rng.pick(&[255u32, 256, 257, 300, 320, 511, 513]) + rng.u32r(0, 3);
+            let small = |rng: &mut Rng| rng.u32r(1, 40);
+            let (w, h) = match idx % 3 {
+                0 => (big(rng), small(rng)),
+                1 => (small(rng), big(rng)),
+                _ => (big(rng), big(rng) / 2),
+            };
+            let tl = Point::new(rng.i32r(-600, 300), rng.i32r(-600, 300));
+            match (idx / 3) % 6 {
+                0 => {
+                    let r = Rectangle::new(tl, Size::new(w, h));
+                    check(ctx, "rectangle", &r, &|| format!("{:?}", r), rng);
+                }
+                1 => {
+                    let c = Circle::new(tl, w.max(h));
+                    check(ctx, "circle", &c, &|| format!("{:?}", c), rng);
+                }
+                2 => {
+                    let e = Ellipse::new(tl, Size::new(w, h));
+                    check(ctx, "ellipse", &e, &|| format!("{:?}", e), rng);
+                }
+                3 => {
+                    let mut r = |rng: &mut Rng| Size::new(rng.u32r(0, w), rng.u32r(0, h));
+                    let corners = CornerRadii { top_left: r(rng), top_right: r(rng), bottom_right: r(rng), bottom_left: r(rng) };
+                    let rr = RoundedRectangle::new(Rectangle::new(tl, Size::new(w, h)), corners);
+                    check(ctx, "rounded_rectangle", &rr, &|| format!("{:?}", rr), rng);
+                }
+                4 => {
+                    let t = Triangle::new(tl, tl + Point::new(w as i32, rng.i32r(0, h as i32)), tl + Point::new(rng.i32r(0, w as i32), h as i32));
+                    let a2 = (t.vertices[1].x - t.vertices[0].x) as i64 * (t.vertices[2].y - t.vertices[0].y) as i64 - (t.vertices[2].x - t.vertices[0].x) as i64 * (t.vertices[1].y - t.vertices[0].y) as i64;
+                    if a2 != 0 {
+                        check(ctx, "triangle", &t, &|| format!("{:?}", t), rng);
+                    }
+                }
+                _ => {
+                    let (start, sweep) = (zoo::gen_angle(rng), zoo::gen_angle(rng));
+                    let s = Sector::new(tl, w.max(h), start.deg(), sweep.deg());
+                    check(ctx, "sector", &s, &|| format!("Sector {{ top_left: {:?}, diameter: {}, start: {} deg, sweep: {} deg }}", s.top_left, w.max(h), start, sweep), rng);
+                }
+            }
+        });
         let _ = mix(0, 0);
     })
 }
